@@ -1,8 +1,8 @@
 (** C15 translation tie: the functions regenerated from kernel/kfmt/fmt.go (Gen/Trans_kfmt_fmt.v) RUN by vm_compute
-    on concrete calls - including [go_kfmt_Fprintf], which no theorem covers yet - and the hypotheses of the
+    on concrete calls - including [go_kfmt_Fprintf] - and the hypotheses of the
     [*_is_translation] theorems discharged on concrete instances (non-vacuity). *)
-From Coq Require Import NArith ZArith String Ascii List.
-From FF Require Import Lib.Word Lib.GoOps Lib.GoOpsFmt Gen.Consts_kfmt Gen.Trans_kfmt_fmt Kfmt.Fmt Kfmt.FmtTrans.
+From Coq Require Import NArith ZArith String Ascii List Lia.
+From FF Require Import Lib.Word Lib.GoOps Lib.GoOpsFmt Gen.Consts_kfmt Gen.Trans_kfmt_fmt Kfmt.Fmt Kfmt.FmtTrans Kfmt.FmtTransScan.
 From FF Require Import Props.C15_trans.
 Import ListNotations.
 Local Open Scope N_scope.
@@ -72,3 +72,22 @@ Example C15_fmtInt_is_translation_instance :
   out (go_kfmt_fmtInt 34 w0 true (GAInt (neg 64 42)) 10 5) = "  -42"%string /\
   written (r <- fmt_int (repeat 0 33) (of_gany (GAInt (neg 64 42))) 10 (sz 5) ;; Ok r) = Ok (bytes "  -42").
 Proof. vm_compute. split; reflexivity. Qed.
+
+(** C15_fprintf_is_translation at the task's example call: the hypotheses hold, the model's output is the expected
+    text, and the stated fuel bound len(format)+len(args)+len(out)+34 (= 18+5+21+34 = 78 < 79) is enough for the
+    regenerated Fprintf, which then writes that text *)
+Definition ex_fmt : list N := bytes "%5d|%x|%s|%t|%%|%o".
+Definition ex_args : list gany := [GAInt (neg 64 42); GAInt 255; GAStr (bytes "ab"); GABool true; GAU8 8].
+Example C15_fprintf_is_translation_nonvacuous :
+  length (f_world_numFmtBuf w0) = N.to_nat kfmt_numFmtBufLen /\
+  N.of_nat (length ex_fmt) < 4611686018427387904 /\ N.of_nat (length ex_args) < 4611686018427387904 /\
+  Forall gany_wf ex_args /\ Forall str_ok ex_args /\
+  written (fprintf ex_fmt (map of_gany ex_args) (repeat 0 33)) = Ok (bytes "  -42|ff|ab|true|%|10") /\
+  (length ex_fmt + length ex_args + length (bytes "  -42|ff|ab|true|%|10") + 34 < 79)%nat /\
+  out (go_kfmt_Fprintf 79 w0 true ex_fmt ex_args) = "  -42|ff|ab|true|%|10"%string.
+Proof.
+  split; [reflexivity|]. split; [vm_compute; reflexivity|]. split; [vm_compute; reflexivity|].
+  split; [unfold ex_args; repeat (apply Forall_cons; [vm_compute; first [exact I|reflexivity]|]); apply Forall_nil|].
+  split; [unfold ex_args; repeat (apply Forall_cons; [vm_compute; first [exact I|reflexivity]|]); apply Forall_nil|].
+  split; [vm_compute; reflexivity|]. split; [vm_compute; lia|]. vm_compute. reflexivity.
+Qed.
